@@ -12,7 +12,7 @@
    vr says which revision of the code is modelled; [code_variant] (= all six `fix:` commits of
    /repo/rapidproto in) is the one the correspondence check ties to the implementation. Theorems that
    need a repair state it as a hypothesis on vr and are instantiated at [code_variant] below. *)
-From CP Require Import DecodeTotal Extra RapidGen RapidGenProofs.
+From CP Require Import DecodeTotal Extra RapidGen RapidGenProofs RapidGenSound.
 Local Open Scope N_scope.
 
 (* termination: fuel depthLimit + 2 suffices for every schema (recursive ones included: recursion
@@ -141,3 +141,53 @@ Example gen_in_range_samples :
   ann_ok sch_demo ann_demo = true /\
   forallb (fun o => forallb (sample_ok code_variant o) [1; 2; 3]) demo_opts = true.
 Proof. destruct RapidGenProofs.gen_in_range_samples as (A & B & _). split; [exact A|exact B]. Qed.
+
+(* EVERY output of the generator model lies in the range, for every schema, option set and tape of
+   draws (Proofs/RapidGenSound.v): the code after its fix: commits, a well-formed schema whose
+   annotations fit (well-known type layouts, distinct full names, enums with at least one int32 value),
+   FieldMappers that answer from their declared sets with values of the field's type and do not tell
+   nil bytes from empty bytes, and an output whose encoding fits a Go slice (< 2^63 bytes: C01's own
+   premise; the payload of every Any is decoded again by the range predicate). The revisiting of map
+   entries by duplicate keys, oneof members overwriting each other, the nesting limit and Any payloads
+   inside Any payloads are all covered. *)
+Theorem gen_in_range : forall o sch ann,
+  wf sch = true -> ann_ok sch ann = true -> NoDup (map a_name ann) -> enums_ok sch ann ->
+  fmap_gen_sound o -> fmap_typed o -> fmap_bytes_norm o ->
+  forall mid tape v, gen code_variant o sch ann mid tape = Ok v ->
+    N.of_nat (length (emit sch false mid v)) < two63 ->
+    rapid_in_range code_variant o sch ann mid v = true.
+Proof. exact RapidGenSound.gen_in_range. Qed.
+
+(* hence every validity statement above holds of every output of the generator model *)
+Theorem gen_outputs_valid : forall o sch ann,
+  wf sch = true -> ann_ok sch ann = true -> NoDup (map a_name ann) -> enums_ok sch ann ->
+  fmap_gen_sound o -> fmap_typed o -> fmap_bytes_norm o ->
+  fmap_sound o (p_scalar utf8_preds) -> fmap_sound o (p_scalar enum_preds) ->
+  forall mid tape v, gen code_variant o sch ann mid tape = Ok v -> N.of_nat (length (emit sch false mid v)) < two63 ->
+    let D := fun Q => deep sch ann Q top_fuel 1 INoField mid v = true in
+    wt_msg sch mid v = true /\ (val_depth v <= 12)%nat /\
+    D utf8_preds /\ D timestamp_preds /\ D duration_preds /\ D fieldmask_preds /\ D enum_preds /\
+    D (no_empty_preds code_variant o ann) /\ D (no_empty_nonnil_preds o) /\ D (disallow_nil_preds o ann) /\
+    D no_nil_elem_preds /\ D (mapper_preds o) /\
+    (o_any o <> [] -> D (any_preds o sch ann)) /\ (o_any o = [] -> D (no_any_field_preds ann)).
+Proof. exact RapidGenSound.gen_outputs_valid. Qed.
+
+(* the premises are decidable or hold of the runner's options: boolean checker for the enum premise, the
+   options without FieldMapper and with the runner's string mapper *)
+Theorem enums_okb_sound : forall sch ann, enums_okb sch ann = true -> enums_ok sch ann.
+Proof. exact RapidGenSound.enums_okb_sound. Qed.
+Theorem no_mapper_premises : forall o, (forall k d, o_fmap o k d = FmNone) ->
+  fmap_gen_sound o /\ fmap_typed o /\ fmap_bytes_norm o /\ fmap_sound o (p_scalar utf8_preds) /\ fmap_sound o (p_scalar enum_preds).
+Proof. exact RapidGenSound.no_mapper_ok. Qed.
+Theorem string_mapper_premises : forall o, o_fmap o = fmap_of_id 1 ->
+  fmap_gen_sound o /\ fmap_typed o /\ fmap_bytes_norm o /\ fmap_sound o (p_scalar utf8_preds) /\ fmap_sound o (p_scalar enum_preds).
+Proof. exact RapidGenSound.mapper1_ok. Qed.
+
+(* non-vacuity of gen_in_range: all premises hold of the demo schema with AnyTypeURLs, an interface hint,
+   NoEmptyLists and the string mapper, and the generator model produces a non-trivial value there *)
+Example gen_in_range_nonvacuous :
+  wf sch_demo = true /\ ann_ok sch_demo ann_demo = true /\ NoDup (map a_name ann_demo) /\ enums_ok sch_demo ann_demo /\
+  fmap_gen_sound demo_o /\ fmap_typed demo_o /\ fmap_bytes_norm demo_o /\
+  exists m, gen code_variant demo_o sch_demo ann_demo 0 (lcg 1500 2) = Ok m /\
+            N.of_nat (length (emit sch_demo false 0 m)) < two63 /\ (1 < length (emit sch_demo false 0 m))%nat.
+Proof. exact RapidGenSound.gen_in_range_demo. Qed.
